@@ -12,6 +12,7 @@ import (
 	"math/big"
 	"sort"
 	"strings"
+	"sync/atomic"
 
 	"github.com/jackc/pgx/v5/pgconn"
 	"github.com/uptrace/bun"
@@ -36,6 +37,24 @@ type Store struct {
 	sess  *Session  // nil on a root store (every statement autocommits on a pooled connection)
 	bunTx *bun.Tx   // real bun transaction (top-level or savepoint) on pgshim
 	conn  *bun.Conn // dedicated connection (LockLedger on a root store)
+	// dones: one flag per enclosing transaction handle (outermost first); a handle whose own or
+	// enclosing transaction was committed / rolled back answers sql.ErrTxDone, as database/sql does
+	dones []*int32
+}
+
+func (s *Store) txDone() bool {
+	for _, d := range s.dones {
+		if atomic.LoadInt32(d) != 0 {
+			return true
+		}
+	}
+	return false
+}
+
+func (s *Store) markDone() {
+	if n := len(s.dones); n > 0 {
+		atomic.StoreInt32(s.dones[n-1], 1)
+	}
 }
 
 var _ ledgercontroller.Store = (*Store)(nil)
@@ -53,6 +72,9 @@ func (s *Store) enter(ctx context.Context, site string) error {
 	s.c.stats.calls++
 	s.c.mu.Unlock()
 	s.c.emit(ctx, s.sess, "call", site, s.l.Name, "")
+	if s.txDone() {
+		return sql.ErrTxDone
+	}
 	if s.c.Hook != nil {
 		if err := s.c.Hook(ctx, site); err != nil {
 			// a failed statement aborts the enclosing SQL transaction
@@ -132,6 +154,7 @@ func (s *Store) BeginTX(ctx context.Context, options *sql.TxOptions) (ledgercont
 		s.c.mu.Unlock()
 	}
 	cp := *s
+	cp.dones = append(append([]*int32(nil), s.dones...), new(int32))
 	switch {
 	case s.bunTx != nil:
 		tx, err := s.bunTx.BeginTx(ctx, options) // SAVEPOINT through pgshim
@@ -172,6 +195,7 @@ func (s *Store) Commit(ctx context.Context) error {
 	if s.bunTx == nil {
 		return errors.New("cannot commit transaction: not in a transaction")
 	}
+	defer s.markDone()
 	return s.bunTx.Commit()
 }
 
@@ -192,6 +216,7 @@ func (s *Store) Rollback(ctx context.Context) error {
 		injected = s.c.Hook(ctx, "Rollback")
 	}
 	err := s.bunTx.Rollback()
+	s.markDone()
 	if injected != nil {
 		return injected
 	}
@@ -867,8 +892,8 @@ type storedPayload struct {
 	memento []byte
 }
 
-func (storedPayload) Type() ledger.LogType                 { panic("storedPayload") }
-func (storedPayload) NeedsSchema() bool                    { panic("storedPayload") }
+func (storedPayload) Type() ledger.LogType                   { panic("storedPayload") }
+func (storedPayload) NeedsSchema() bool                      { panic("storedPayload") }
 func (storedPayload) ValidateWithSchema(ledger.Schema) error { panic("storedPayload") }
 
 func hydrate(l *ledger.Log) ledger.Log {
